@@ -192,6 +192,18 @@ func (s *Statement) unevict(
 	return nil
 }
 
+// sameGpuGroups tells whether two lists name the same GPU groups, in any order: a task that shares several
+// devices is not moved to different GPUs when it is given the devices it already holds in another order.
+func sameGpuGroups(a, b []string) bool {
+	if len(a) != len(b) {
+		return false
+	}
+	sortedA, sortedB := slices.Clone(a), slices.Clone(b)
+	slices.Sort(sortedA)
+	slices.Sort(sortedB)
+	return slices.Equal(sortedA, sortedB)
+}
+
 func (s *Statement) Pipeline(task *pod_info.PodInfo, hostname string, updateTaskIfExistsOnNode bool) error {
 	// Only update status in session
 	job, foundJob := s.ssn.ClusterInfo.PodGroupInfos[task.Job]
@@ -207,7 +219,7 @@ func (s *Statement) Pipeline(task *pod_info.PodInfo, hostname string, updateTask
 	isSharedAndMoveToDifferentGPU := false
 	if foundOnNode {
 		isSharedAndMoveToDifferentGPU = len(task.GPUGroups) > 0 && task.IsSharedGPUAllocation() &&
-			!slices.Equal(task.GPUGroups, []string{"-1"}) && !slices.Equal(task.GPUGroups, taskOnNode.GPUGroups)
+			!slices.Equal(task.GPUGroups, []string{"-1"}) && !sameGpuGroups(task.GPUGroups, taskOnNode.GPUGroups)
 	}
 
 	// If the task already exist on the node, we assume it was evicted before.
